@@ -290,6 +290,7 @@ struct World {
     set_cache: BTreeMap<(u64, u64), Option<(Arc<SignerBuilder>, Arc<MultiSigner>)>>,
     verdict_cache: BTreeMap<(usize, u64, u64), bool>,
     resign_cache: BTreeMap<(usize, u64, u64, usize), bool>,
+    message_cache: BTreeMap<(String, u64), Option<String>>,
 }
 
 /// everything the signer process owns
@@ -365,6 +366,7 @@ impl World {
             set_cache: BTreeMap::new(),
             verdict_cache: BTreeMap::new(),
             resign_cache: BTreeMap::new(),
+            message_cache: BTreeMap::new(),
         }
     }
 
@@ -521,6 +523,18 @@ impl World {
     /// the protocol message an aggregator computes for `entity` from its own registrations (hash, hex)
     async fn aggregator_message(&mut self, entity: &SignedEntityType) -> Option<String> {
         let epoch = *entity.get_epoch_when_signed_entity_type_is_signed();
+        let version = self.store.read().await.version.get(&epoch).copied().unwrap_or(0);
+        let key = (entity_name(entity), version);
+        if let Some(m) = self.message_cache.get(&key) {
+            return m.clone();
+        }
+        let m = self.aggregator_message_uncached(entity).await;
+        self.message_cache.insert(key, m.clone());
+        m
+    }
+
+    async fn aggregator_message_uncached(&mut self, entity: &SignedEntityType) -> Option<String> {
+        let epoch = *entity.get_epoch_when_signed_entity_type_is_signed();
         let (next, _, _) = self.derived_set(epoch).await?; // next signers of `epoch`: recorded for `epoch`
         let mut message = match entity {
             SignedEntityType::MithrilStakeDistribution(_) => ProtocolMessage::new(),
@@ -647,9 +661,11 @@ impl Harness {
             p.protocol_initializer_store.get_last_protocol_initializer(1000).await.unwrap().into_iter().map(|(e, i)| (*e, i)).collect();
         stored.sort_by_key(|(e, _)| *e);
         let mut inits = vec![];
+        let mut stored_kid: BTreeMap<u64, usize> = BTreeMap::new();
         for (e, i) in &stored {
             let vk: mithril_common::crypto_helper::ProtocolSignerVerificationKeyForConcatenation = i.verification_key_for_concatenation().into();
             let id = self.w.key_id(&vk.to_json_hex().unwrap());
+            stored_kid.insert(*e, id);
             inits.push(json!({"epoch": e, "key": id}));
         }
         // --- stored stake distributions
@@ -744,8 +760,7 @@ impl Harness {
                 }
                 // was it made with the initializer the signer has stored for `rec`?
                 if let Some((_, init)) = stored.iter().find(|(e, _)| e == rec) {
-                    let vk: mithril_common::crypto_helper::ProtocolSignerVerificationKeyForConcatenation = init.verification_key_for_concatenation().into();
-                    let kid = self.w.key_id(&vk.to_json_hex().unwrap());
+                    let kid = stored_kid[rec];
                     let me = self.w.me.clone();
                     let same = *self.w.resign_cache.entry((n, *rec, version, kid)).or_insert_with(|| {
                         match builder.restore_signer_from_initializer(me, init.clone()) {
@@ -829,13 +844,72 @@ fn random_schedule(r: &mut ChaCha20Rng, len: usize) -> Vec<Value> {
     out
 }
 
+/// what one schedule produced
+struct RunOutput {
+    events: Vec<Value>,
+    actions: u64,
+    signatures: usize,
+    registrations: usize,
+    restarts: u64,
+    hits: BTreeMap<String, u64>,
+}
+
+/// one schedule on a fresh world (own work directory, own aggregator double, own runtime), followed by the
+/// fault-free epilogue
+fn run_schedule(dir: PathBuf, id: &Value, schedule: &[Value]) -> RunOutput {
+    let rt = tokio::runtime::Builder::new_current_thread().enable_all().build().unwrap();
+    let mut out = RunOutput { events: vec![], actions: 0, signatures: 0, registrations: 0, restarts: 0, hits: BTreeMap::new() };
+    rt.block_on(async {
+        let mut h = Harness::new(dir.clone()).await;
+        let obs = h.project().await;
+        out.events.push(json!({"ev":"Start","schedule":id,"obs":obs,"nsigners":NSIGNERS}));
+        for a in schedule {
+            let res = h.act(a).await;
+            let obs = h.project().await;
+            out.actions += 1;
+            out.events.push(json!({"ev":"Obs","action":a,"result":res,"obs":obs}));
+        }
+        // fault-free epilogue: three more epochs in which everybody registers and the signer just runs; in the
+        // third one it must have signed again ("resumes correctly")
+        let mut last_obs = Value::Null;
+        for _ in 0..3 {
+            let all_others: Vec<usize> = (1..NSIGNERS).collect();
+            let mut script = vec![json!({"a":"Others","who": all_others}), json!({"a":"EpochUp"})];
+            script.extend((0..5).map(|_| json!({"a":"Tick","fault":"none"})));
+            for a in &script {
+                let res = h.act(a).await;
+                let obs = h.project().await;
+                out.actions += 1;
+                out.events.push(json!({"ev":"Obs","action":a,"result":res,"obs":obs.clone(),"epilogue":true}));
+                last_obs = obs;
+            }
+        }
+        let final_epoch = last_obs["epoch"].as_u64().unwrap();
+        let wanted = format!("MSD:{final_epoch}");
+        let signed_again = last_obs["sigs"].as_array().unwrap().iter().any(|s| {
+            s["entity"] == json!(wanted)
+                && s["msg_ok"] == json!(true)
+                && s["verifies_under"].as_array().unwrap().contains(&json!(final_epoch - RETRIEVAL_BACK))
+        });
+        out.events.push(json!({"ev":"Progress","schedule":id,"epoch":final_epoch,"signed_again":signed_again,
+            "state": last_obs["state"], "state_epoch": last_obs["state_epoch"]}));
+        let s = h.w.store.read().await;
+        out.signatures = s.sigs.len();
+        out.registrations = s.reg_log.iter().filter(|r| r.0 != 0).count();
+        out.restarts = h.restarts;
+        out.hits = s.hits.clone();
+    });
+    let _ = std::fs::remove_dir_all(&dir);
+    out
+}
+
 fn main() {
     let args = Args::parse();
     let seed = args.num("seed", 1);
     let out = args.req("out");
     let work = PathBuf::from(args.get("work").unwrap_or("/verif/work/signer".into()));
+    let jobs = args.num("jobs", 1).max(1) as usize;
     let mut trace = Trace::create(&out);
-    let rt = tokio::runtime::Builder::new_current_thread().enable_all().build().unwrap();
     let schedules: Vec<(Value, Vec<Value>)> = match args.get("schedules") {
         Some(p) => read_ndjson(p).into_iter().map(|s| (s["id"].clone(), s["steps"].as_array().unwrap().clone())).collect(),
         None => {
@@ -843,61 +917,45 @@ fn main() {
             (0..args.num("runs", 4)).map(|i| (json!(i), random_schedule(&mut r, args.num("len", 60) as usize))).collect()
         }
     };
+    // the fixture writes the operators' KES material to a shared temp directory on first use: do it once, up front
+    let _ = MithrilFixtureBuilder::default().with_signers(NSIGNERS).build();
+    // schedules are independent of each other (and mostly wait for loopback HTTP): run them on `jobs` threads, emit
+    // their events in schedule order
+    let next = std::sync::atomic::AtomicUsize::new(0);
+    let results: std::sync::Mutex<BTreeMap<usize, RunOutput>> = std::sync::Mutex::new(BTreeMap::new());
+    std::thread::scope(|scope| {
+        for _ in 0..jobs {
+            scope.spawn(|| {
+                loop {
+                    let si = next.fetch_add(1, std::sync::atomic::Ordering::SeqCst);
+                    if si >= schedules.len() {
+                        break;
+                    }
+                    let (id, schedule) = &schedules[si];
+                    let r = run_schedule(work.join(format!("run{si}")), id, schedule);
+                    results.lock().unwrap().insert(si, r);
+                }
+            });
+        }
+    });
+    let results = results.into_inner().unwrap();
+    assert_eq!(results.len(), schedules.len(), "a schedule did not complete");
     let mut actions = 0u64;
     let mut signatures = 0usize;
     let mut registrations = 0usize;
     let mut restarts = 0u64;
     let mut hits: BTreeMap<String, u64> = BTreeMap::new();
-    for (si, (id, schedule)) in schedules.iter().enumerate() {
-        let dir = work.join(format!("run{si}"));
-        rt.block_on(async {
-            let mut h = Harness::new(dir.clone()).await;
-            let obs = h.project().await;
-            trace.emit(json!({"ev":"Start","schedule":id,"obs":obs,"nsigners":NSIGNERS}));
-            for a in schedule {
-                let t0 = std::time::Instant::now();
-                let res = h.act(a).await;
-                let t1 = std::time::Instant::now();
-                let obs = h.project().await;
-                if std::env::var("C20_TIMING").is_ok() {
-                    eprintln!("{} act {:?} project {:?}", a["a"], t1 - t0, t1.elapsed());
-                }
-                actions += 1;
-                trace.emit(json!({"ev":"Obs","action":a,"result":res,"obs":obs}));
-            }
-            // fault-free epilogue: three more epochs in which everybody registers and the signer just runs; in the
-            // third one it must have signed again ("resumes correctly")
-            let mut last_obs = Value::Null;
-            for _ in 0..3 {
-                let all_others: Vec<usize> = (1..NSIGNERS).collect();
-                let mut script = vec![json!({"a":"Others","who": all_others}), json!({"a":"EpochUp"})];
-                script.extend((0..5).map(|_| json!({"a":"Tick","fault":"none"})));
-                for a in &script {
-                    let res = h.act(a).await;
-                    let obs = h.project().await;
-                    actions += 1;
-                    trace.emit(json!({"ev":"Obs","action":a,"result":res,"obs":obs,"epilogue":true}));
-                    last_obs = obs;
-                }
-            }
-            let final_epoch = last_obs["epoch"].as_u64().unwrap();
-            let wanted = format!("MSD:{final_epoch}");
-            let signed_again = last_obs["sigs"].as_array().unwrap().iter().any(|s| {
-                s["entity"] == json!(wanted)
-                    && s["msg_ok"] == json!(true)
-                    && s["verifies_under"].as_array().unwrap().contains(&json!(final_epoch - RETRIEVAL_BACK))
-            });
-            trace.emit(json!({"ev":"Progress","schedule":id,"epoch":final_epoch,"signed_again":signed_again,
-                "state": last_obs["state"], "state_epoch": last_obs["state_epoch"]}));
-            let s = h.w.store.read().await;
-            signatures += s.sigs.len();
-            registrations += s.reg_log.iter().filter(|r| r.0 != 0).count();
-            restarts += h.restarts;
-            for (k, v) in &s.hits {
-                *hits.entry(k.clone()).or_default() += v;
-            }
-        });
-        let _ = std::fs::remove_dir_all(&dir);
+    for (_, r) in results {
+        for e in r.events {
+            trace.emit(e);
+        }
+        actions += r.actions;
+        signatures += r.signatures;
+        registrations += r.registrations;
+        restarts += r.restarts;
+        for (k, v) in r.hits {
+            *hits.entry(k).or_default() += v;
+        }
     }
     let n = trace.finish();
     println!(
